@@ -248,5 +248,20 @@ pub fn dyadic_weights(rng: &mut Rng, n: usize, wild: bool) -> Vec<f64> {
             k[i] += 1;
         }
     }
-    k.iter().map(|x| *x as f64 / 64.0).collect()
+    let mut w: Vec<f64> = k.iter().map(|x| *x as f64 / 64.0).collect();
+    if rng.chance(0.15) {
+        // a tiny but non-zero component (a power of two far below any "numerically zero"
+        // threshold), taken from another component so that the sum stays exactly 1
+        let i = if rng.chance(0.7) { 1 + rng.below(n - 1) } else { 0 };
+        let j = (i + 1 + rng.below(n - 1)) % n;
+        let t = (2.0f64).powi(-(*rng.pick(&[21i32, 24, 30, 40]))) * if wild && rng.chance(0.5) { -1.0 } else { 1.0 };
+        if w[i] == 0.0 || rng.chance(0.5) {
+            w[j] += w[i] - t;
+            w[i] = t;
+        } else {
+            w[i] += t;
+            w[j] -= t;
+        }
+    }
+    w
 }
